@@ -411,6 +411,7 @@ type asyncState struct {
 	released chan struct{}
 	finished chan struct{}
 	once     sync.Once
+	tw       *discardW // adapter variant: the writer the middleware hands to the next handler
 }
 type asyncKey struct{}
 
@@ -420,18 +421,49 @@ func (a *asyncState) log(n string) {
 	a.mu.Unlock()
 }
 
-type discardW struct{ h http.Header }
+type discardW struct {
+	h      http.Header
+	mu     sync.Mutex
+	body   []byte
+	status int
+}
 
-func (d *discardW) Header() http.Header         { return d.h }
-func (d *discardW) WriteHeader(int)             {}
-func (d *discardW) Write(b []byte) (int, error) { return len(b), nil }
+func (d *discardW) Header() http.Header { return d.h }
+func (d *discardW) WriteHeader(s int) {
+	d.mu.Lock()
+	if d.status == 0 {
+		d.status = s
+	}
+	d.mu.Unlock()
+}
+func (d *discardW) code() int {
+	d.mu.Lock()
+	defer d.mu.Unlock()
+	return d.status
+}
+func (d *discardW) Write(b []byte) (int, error) {
+	d.mu.Lock()
+	d.body = append(d.body, b...)
+	d.mu.Unlock()
+	return len(b), nil
+}
+func (d *discardW) text() string {
+	d.mu.Lock()
+	defer d.mu.Unlock()
+	return string(d.body)
+}
 
 var asyncBroken int32
 
 // asyncChain: a filter in the style of http.TimeoutHandler - it hands the rest of the chain, with a response of its own, to
 // another goroutine, answers 504 itself and returns while the chain below has only reached the next filter. That filter goes on
 // only after Dispatch has returned to its caller. Every element still runs exactly once, in order.
-func asyncChain(ctx *core.Ctx, ci int, router string) {
+//
+// adapter=true: the same shape built from a plain net/http middleware (what http.TimeoutHandler is) behind
+// HttpMiddlewareHandlerToFilter - the middleware calls the next handler with a writer of its own on another goroutine and
+// returns first. The pair the middleware passed on stays the pair the rest of the chain works with: the handler's late output
+// must arrive at the middleware's writer, never at the connection that already carries the 504.
+func asyncChain(ctx *core.Ctx, ci int, router string, adapter bool) {
 	stOf := func(r *http.Request) *asyncState { return r.Context().Value(asyncKey{}).(*asyncState) }
 	rec := func(n string) restful.FilterFunction {
 		return func(req *restful.Request, resp *restful.Response, chain *restful.FilterChain) {
@@ -444,7 +476,30 @@ func asyncChain(ctx *core.Ctx, ci int, router string) {
 		c.Router(restful.RouterJSR311{})
 	}
 	c.Filter(rec("A"))
+	if adapter {
+		c.Filter(restful.HttpMiddlewareHandlerToFilter(func(next http.Handler) http.Handler {
+			return http.HandlerFunc(func(w http.ResponseWriter, r *http.Request) {
+				st := stOf(r)
+				st.log("T")
+				go func() {
+					defer st.once.Do(func() { close(st.finished) })
+					defer func() { recover() }()
+					next.ServeHTTP(st.tw, r)
+				}()
+				select {
+				case <-st.bEntered:
+				case <-time.After(20 * time.Second):
+					st.log("T-gave-up-waiting-for-B")
+				}
+				w.WriteHeader(504)
+			})
+		}))
+	}
 	c.Filter(func(req *restful.Request, resp *restful.Response, chain *restful.FilterChain) {
+		if adapter {
+			chain.ProcessFilter(req, resp)
+			return
+		}
 		st := stOf(req.Request)
 		st.log("T")
 		inner := restful.NewResponse(&discardW{h: http.Header{}})
@@ -474,7 +529,11 @@ func asyncChain(ctx *core.Ctx, ci int, router string) {
 	c.Filter(rec("C"))
 	ws := new(restful.WebService).Path("/async").Filter(rec("S"))
 	ws.Route(ws.GET("/x").Filter(rec("R")).To(func(req *restful.Request, resp *restful.Response) {
-		stOf(req.Request).log("H")
+		st := stOf(req.Request)
+		st.log("H")
+		if adapter && resp.ResponseWriter != http.ResponseWriter(st.tw) {
+			st.log("H-holds-" + ident(resp.ResponseWriter))
+		}
 		resp.Write([]byte("late answer"))
 	}))
 	c.Add(ws)
@@ -482,11 +541,13 @@ func asyncChain(ctx *core.Ctx, ci int, router string) {
 		if atomic.LoadInt32(&asyncBroken) != 0 {
 			return
 		}
-		st := &asyncState{bEntered: make(chan struct{}), released: make(chan struct{}), finished: make(chan struct{})}
+		st := &asyncState{bEntered: make(chan struct{}), released: make(chan struct{}), finished: make(chan struct{}), tw: &discardW{h: http.Header{}}}
 		req := rt.Req{Method: "GET", Path: "/async/x"}
 		hr := rt.HTTPRequest(&req, nil)
 		hr = hr.WithContext(context.WithValue(context.Background(), asyncKey{}, st))
-		w := rt.NewRec()
+		// the connection is written by the caller's goroutine only when the library is right: a writer with a lock of its own,
+		// so that a late write from the chain's goroutine is a finding of the oracle below, not a race inside the harness
+		w := &discardW{h: http.Header{}}
 		c.Dispatch(w, hr)
 		close(st.released)
 		select {
@@ -501,7 +562,17 @@ func asyncChain(ctx *core.Ctx, ci int, router string) {
 		st.mu.Lock()
 		got := strings.Join(st.names, " ")
 		st.mu.Unlock()
-		if got != "A T B C S R H" || w.Code() != 504 {
+		if adapter {
+			ctx.Count("requests_through_an_asynchronous_adapted_middleware", 1)
+			mode += ":adapter"
+		}
+		if adapter && got == "A T B C S R H" && w.code() == 504 && (st.tw.text() != "late answer" || w.text() != "") {
+			atomic.StoreInt32(&asyncBroken, 1)
+			ctx.Violation(ci, "c06:handover:async-middleware:"+mode, fmt.Sprintf("the handler's output went elsewhere: the writer the middleware passed on holds %q, the connection that carries the 504 holds %q", st.tw.text(), w.text()),
+				map[string]interface{}{"router": router, "middleware_writer": st.tw.text(), "connection": w.text()})
+			return
+		}
+		if got != "A T B C S R H" || w.code() != 504 {
 			atomic.StoreInt32(&asyncBroken, 1) // one witness is enough; further requests would only wait for their watchdogs
 			cls := "order"
 			seen := map[string]bool{}
@@ -511,8 +582,8 @@ func asyncChain(ctx *core.Ctx, ci int, router string) {
 				}
 				seen[n] = true
 			}
-			ctx.Violation(ci, "c06:"+cls+":async-filter:"+mode, fmt.Sprintf("elements ran as [%s] (status %d); each runs once, in the order A T B C S R H, and the filter's own 504 is the answer", got, w.Code()),
-				map[string]interface{}{"router": router, "ran": st.names, "status": w.Code()})
+			ctx.Violation(ci, "c06:"+cls+":async-filter:"+mode, fmt.Sprintf("elements ran as [%s] (status %d); each runs once, in the order A T B C S R H, and the filter's own 504 is the answer", got, w.code()),
+				map[string]interface{}{"router": router, "ran": st.names, "status": w.code()})
 		}
 	}
 	for i := 0; i < 6; i++ {
@@ -541,7 +612,7 @@ func c06(ctx *core.Ctx) {
 			continue
 		}
 		if ci%10 == 4 || ci%10 == 9 {
-			asyncChain(ctx, ci, routerOf(ci))
+			asyncChain(ctx, ci, routerOf(ci), ci%20 >= 10)
 		}
 		r := ctx.Rand(ci, "cfg")
 		cfg := &c06Config{Router: routerOf(ci), Container: genBehs(r, 5), LateSvc: r.Chance(1, 3), LateCont: r.Chance(1, 3)}
